@@ -30,10 +30,42 @@ class CvrpAdapter(envcorr.Adapter):
             # demands that can fill the vehicle exactly: halves, quarters, and complements
             pool = [C // 2, C // 4, C // 4, C // 2, C, C - 1, 1, C // 2 + 1, C // 2 - 1]
             dem = [max(1, rng.choice(pool)) for _ in range(n)]
+        elif kind == "tight":
+            # fine demand grid (one unit = 2^-12 or 2^-18 of the capacity, the latter below the checker's 1e-5
+            # tolerance); a group G of 2-3 customers whose demands sum to the capacity exactly (delta = 0) or
+            # exceed it by ONE unit (delta = 1): the mask must offer the last member of G iff delta = 0
+            C = rng.choice([1 << 12, 1 << 18])
+            g = min(n, rng.choice([2, 3]))
+            delta = rng.choice([0, 1]) if n >= 2 else 0
+            cuts = sorted(rng.sample(range(1, C), g - 1)) if g > 1 else []
+            parts = [b - a for a, b in zip([0] + cuts, cuts + [C])]
+            parts[-1] += delta
+            dem = parts + [rng.randint(1, C // 2) for _ in range(n - g)]
+            order = list(range(n))
+            rng.shuffle(order)
+            dem2 = [0] * n
+            group = []
+            for src, dst in enumerate(order):
+                dem2[dst] = dem[src]
+                if src < g:
+                    group.append(dst + 1)
+            pts = geom.gen_points(rng, n + 1)
+            return {"kind": kind, "n": n, "C": C, "demand": dem2, "pts": pts, "group": group, "delta": delta}
         else:
             dem = [rng.randint(1, min(9, C)) for _ in range(n)]
         pts = geom.gen_points(rng, n + 1)
         return {"kind": kind, "n": n, "C": C, "demand": dem, "pts": pts}
+
+    def kinds(self):
+        return ["random", "boundary", "tight"]
+
+    def steering_prefix(self, rng, inst):
+        # drive towards the boundary: serve the tight group in one route
+        if inst.get("group") and rng.random() < 0.8:
+            g = list(inst["group"])
+            rng.shuffle(g)
+            return g
+        return None
 
     def to_td(self, insts):
         B = len(insts)
@@ -66,6 +98,12 @@ class CvrpAdapter(envcorr.Adapter):
                ("leading-depot", [0] + single)]
         if sum(inst["demand"]) <= inst["C"]:
             out.append(("one-route-never-returns", perm))
+        if inst.get("group"):
+            rest = [c for c in perm if c not in inst["group"]]
+            sol = list(inst["group"]) + [0]
+            for c in rest:
+                sol += [c, 0]
+            out.append((f"tight-group-one-route-delta{inst['delta']}", sol))
         return out
 
     def enumerate_solutions(self, inst):
@@ -117,5 +155,5 @@ if os.path.exists(os.path.join(LEAN_DIR, "Rl4co/Props/C06/Cvrp.lean")):
   register(Unit("C06", "cvrp", lambda ctx: envcorr.check_checker(ctx, AD),
               drivers=["drv_cvrp"], lean_modules=["Rl4co.Props.C06.Cvrp"],
               theorems=[Theorem("Rl4co.Cvrp.check_complete", "proved", "Spec-feasible ⇒ checker accepts"),
-                        Theorem("Rl4co.Cvrp.check_sound", "proved", "checker accepts ⇒ feasible within tolerance")],
+                        Theorem("Rl4co.Cvrp.check_sound", "proved", "checker accepts ⇒ feasible up to the load tolerance (demands ≥ 0)")],
               assumptions=[MODEL_NOTE]))
